@@ -124,7 +124,11 @@ def main():
                 break
         # JSON round trip
         js = r3.to_json()
-        back = SM.R3SourceMap.from_json(js, target=plain)
+        try:
+            back = SM.R3SourceMap.from_json(js, target=plain)
+        except Exception as ex:
+            out["problems"].append(f"seed {seed} v{version}: R3SourceMap.from_json raised {type(ex).__name__} on the map's own JSON: {str(ex)[:160]}")
+            continue
         a = {k: (v.source, v.source_line, v.source_column) for k, v in r3.entries.items()}
         b = {k: (v.source, v.source_line, v.source_column) for k, v in back.entries.items()}
         if a != b:
